@@ -542,6 +542,60 @@ def refit_sequence(rec, rng, cid):
             return
 
 
+def cwd_shadow(rec, rng, cid, tsets, scratch):
+    """the label of a shipped training set names that training set, whatever
+    the working directory of the process happens to contain"""
+    import os
+    from nanite.rate.features import IndentationFeatures as IF
+    spec = fitlab.draw_curve_spec(rng, models=["hertz_para"], npts=(700,),
+                                  noise_snr=(100, 30), with_tip=True)
+    idnt = fitlab.build_curve(spec)[0]
+    idnt.fit_model(model_key="hertz_para")
+    reg = REGS[int(rng.integers(7))]
+    kind = ["directory with another training set", "empty directory",
+            "file"][int(rng.integers(3))]
+    wd = pathlib.Path(scratch) / ("cwd_%d" % int(rng.integers(10 ** 9)))
+    wd.mkdir()
+    if kind == "directory with another training set":
+        shutil.copytree(tsets["dir-generated"][0], wd / "zef18")
+    elif kind == "empty directory":
+        (wd / "zef18").mkdir()
+    else:
+        (wd / "zef18").write_text("0.5\n")
+    case = {"id": cid, "kind": "cwd-shadow", "regressor": reg,
+            "working directory contains 'zef18' as": kind}
+    old = os.getcwd()
+    os.chdir(wd)
+    try:
+        via = int(rng.integers(2))
+        try:
+            if via:
+                rt = idnt.rate_quality(regressor=reg, training_set="zef18")
+            else:
+                rt = idnt.rate_quality(regressor=reg)
+        except BaseException as e:  # noqa
+            rec.violation("raises/cwd-shadow/" + type(e).__name__,
+                          "rate_quality raised %s with a %s named 'zef18' "
+                          "in the working directory" % (str(e)[:80], kind),
+                          case)
+            return
+    finally:
+        os.chdir(old)
+    orat = oracle_rater(reg, "zef18", None, None, "zef18")
+    fe = IF.compute_features(idnt, names=orat.names)
+    if idnt.fit_properties.get("success") and not np.isnan(fe).any() \
+            and not np.any(IF.compute_features(
+                idnt, which_type="binary") == 0):
+        want = orat.rate(samples=np.atleast_2d(fe))[0]
+        rec.evaluated(dg=("cwdshadow", cid, kind))
+        rec.event("ratings compared with the standalone rater")
+        rec.event("ratings with a 'zef18' entry in the working directory")
+        rec.check(rt == want, "label-resolved-by-working-directory",
+                  "with a %s named 'zef18' in the working directory the "
+                  "label 'zef18' rates %r, the shipped set gives %r"
+                  % (kind, rt, want), case)
+
+
 def crosstalk(rec, rng, cid, tsets):
     """configurations that differ in one component, requested one after the
     other on FRESH curve objects in this process: a rating must not depend on
@@ -692,6 +746,9 @@ def _run_shard(rec, tier, seed, shard, nshards):
                   [shard, 10 ** 6 + 1], tsets)
         memory_set_sequence(rec, core.case_rng(seed, ID, shard, 10 ** 6 + 2),
                             [shard, 10 ** 6 + 2])
+        for j in range(3 if tier == "quick" else 30):
+            cwd_shadow(rec, core.case_rng(seed, ID, shard, 2 * 10 ** 6 + j),
+                       [shard, 2 * 10 ** 6 + j], tsets, scratch)
         for j in range(3 if tier == "quick" else 40):
             refit_sequence(rec, core.case_rng(seed, ID, shard,
                                               10 ** 6 + 10 + j),
@@ -707,9 +764,16 @@ def replay(rec, case):
     scratch = tempfile.mkdtemp(prefix="nv_c09_")
     try:
         tsets = make_training_sets(core.case_rng(0, ID, 0, 10 ** 6), scratch)
-        if case["case"].get("kind") == "crosstalk":
-            crosstalk(rec, core.case_rng(case["seed"], ID, cid[0], cid[1]),
-                      cid, tsets)
+        kind = case["case"].get("kind")
+        r = core.case_rng(case["seed"], ID, cid[0], cid[1])
+        if kind == "crosstalk":
+            crosstalk(rec, r, cid, tsets)
+        elif kind == "cwd-shadow":
+            cwd_shadow(rec, r, cid, tsets, scratch)
+        elif kind == "refit-sequence":
+            refit_sequence(rec, r, cid)
+        elif kind == "memory-set-sequence":
+            memory_set_sequence(rec, r, cid)
         else:
             one_curve(rec, core.case_rng(case["seed"], ID, cid[0], cid[1]),
                       cid, tsets, None)
